@@ -55,7 +55,7 @@ func (e *executor[R]) Apply(innerFn func(failsafe.Execution[R]) *common.PolicyRe
 			// Wait for result or hedge delay
 			var result *execResult
 			if execIdx < e.maxHedges {
-				timer := time.NewTimer(e.delayFunc(exec))
+				timer := time.NewTimer(e.delayFunc(parentExecution.CopyWithResult(nil)))
 				select {
 				case <-timer.C:
 				case result = <-resultChan:
